@@ -60,9 +60,14 @@ def stage_rule(ctx, run, res, rule, rows_atom, cols_atom, entry_fn):
 
 def cotangent_rule(ctx, res, rule, rows_atom, entry_fn):
     ones = [e for e in _pipe.evs(res, "create") if e["fn"] == "ones_like" and e["like"] == [rows_atom]]
-    others = [e for e in _pipe.evs(res, "create") if e["like"] == [rows_atom] and e["fn"] != "ones_like"]
+    others = [e for e in _pipe.evs(res, "create") if e["like"] == [rows_atom] and e["fn"] not in ("ones_like", "new_zeros", "zeros", "new_empty", "empty")]  # (zero buffers are not cotangents)
     dg = _pipe.evs(res, "diag")
-    okd = len(dg) == 1 and (rows_atom in dg[0]["layout"][0] or "literal-sequence" in dg[0]["layout"][0]) and "'same'" in dg[0]["layout"][0] if dg and dg[0]["layout"] else False
+    if dg and all(e.get("block") for e in dg):
+        # the diagonal matrix built block of columns by block of columns: every block sits on its own rows, all cut from one packed vector
+        lays = {tuple(e["layout"]) for e in dg}
+        okd = all(e.get("rows_match") for e in dg) and len(lays) == 1 and bool(dg[0]["layout"]) and (rows_atom in dg[0]["layout"][0] or "literal-sequence" in dg[0]["layout"][0]) and "'same'" in dg[0]["layout"][0]
+    else:
+        okd = len(dg) == 1 and (rows_atom in dg[0]["layout"][0] or "literal-sequence" in dg[0]["layout"][0]) and "'same'" in dg[0]["layout"][0] if dg and dg[0]["layout"] else False
     ctx.require(bool(ones) and not others, rule, "Init: cotangents are ones of each tensor's shape", "ones_like(value) per requested tensor",
                 f"initial cotangents are not ones_like of the differentiated tensors (creations: {[e['fn'] for e in others][:3]})", ones[0]["loc"] if ones else entry_fn.loc())
     ctx.require(okd, rule, "Diagonalize: one row per scalar, in the order `tensors` were given",
